@@ -294,8 +294,12 @@ K('C01', 'bp-no-division', [(GM, "                tau = beliefs[i] - messages[(j
 K('C01', 'bp-wrong-reverse-key', [(GM, "                tau = beliefs[i] - messages[(j,i)]", "                tau = beliefs[i] - messages[(i,j)]")], 'bp-equations')
 K('C01', 'bp-absorb-into-sender', [(GM, "            beliefs[j] += messages[(i,j)]", "            beliefs[i] += messages[(i,j)]")], 'bp-equations')
 K('C01', 'bp-marginalise-separator', [(GM, "            sep = beliefs[i].domain.invert(self.sep_axes[(i,j)])", "            sep = self.sep_axes[(i,j)]")], 'bp-equations')
-K('C01', 'sub-no-inf-guard', [(F, "        other = Factor(other.domain, np.where(other.values==-np.inf, 0, -other.values))\n        return self + other",
-                                 "        return self + -1*other")], 'inf-guard')
+# (was listed as a breaking variant until round 5: the scalar product sanitises +inf to the largest double, and -inf + 1.8e308 = -inf,
+#  so a structural zero on both sides stays a zero - see twins/C10-p5)
+T('C01', 'sub-via-sanitised-scalar-product', [(F, "        other = Factor(other.domain, np.where(other.values==-np.inf, 0, -other.values))\n        return self + other",
+                                 "        return self + -1*other")])
+K('C01', 'sub-via-raw-negation', [(F, "        other = Factor(other.domain, np.where(other.values==-np.inf, 0, -other.values))\n        return self + other",
+                                 "        return self + Factor(other.domain, -other.values)")], 'inf-guard')
 K('C01', 'logsumexp-handrolled-unguarded', [(F, _LSE_OLD, "        axes = self.domain.axes(attrs)\n        shift = self.values.max(axis=axes, keepdims=True)\n        values = np.log(np.exp(self.values - shift).sum(axis=axes)) + shift.squeeze(axis=axes)")], 'lse-primitive')
 K('C01', 'logsumexp-naive', [(F, _LSE_OLD, "        axes = self.domain.axes(attrs)\n        values = np.log(np.exp(self.values).sum(axis=axes))")], 'lse-primitive')
 K('C01', 'triangulate-no-working-fill', [(JT, "            edges |= tmp\n            G.add_edges_from(tmp)\n            G.remove_node(node)", "            edges |= tmp\n            G.remove_node(node)")], 'elimination-fill-in')
